@@ -13,7 +13,7 @@ names = {}
 n = 0
 for l in body:
     if l.startswith('(assert '):
-        m = re.match(r'\(assert (.*)\)\s*(; axiom)?\s*$', l)
+        m = re.match(r'\(assert (.*)\)\s*(;.*)?$', l)
         out.append('(assert (! %s :named a%d))' % (m.group(1), n))
         names['a%d' % n] = l
         n += 1
